@@ -409,6 +409,20 @@ class Interp:
             left = right
         return result
 
+    def e_Yield(self, node, env):
+        acc, ok = env.lookup("__yielded__")
+        if not ok:
+            raise Unsupported("yield outside an eagerly run generator function")
+        acc.append(self.eval(node.value, env) if node.value is not None else None)
+        return None
+
+    def e_YieldFrom(self, node, env):
+        acc, ok = env.lookup("__yielded__")
+        if not ok:
+            raise Unsupported("yield from outside an eagerly run generator function")
+        acc.extend(self.iterate(self.eval(node.value, env)))
+        return None
+
     def e_Lambda(self, node, env):
         return Closure(node, env, self.stack[-1])
 
